@@ -1,9 +1,37 @@
 import PyamgV.Driver.Util
+import PyamgV.Driver.C05
+import PyamgV.Proofs.ExtC05ZCheck
 
+/-! Driver ops of extension E47 (property C05, definiteness clause and block-smoother certificates).
+
+`ext_c05z_spd r <pre> <post> <levels as for c05_cyc>`: the proved Boolean `C05Z.c05SpdCheck` (finest matrix positive
+definite by an exact `Uᵀ D U` certificate, positive diagonal, a strict finest smoother, all smoothers non-expansive -- damped
+Jacobi through the certificate of `2 D − ω A` --, Galerkin coarse matrices, invertible level matrices) on the concrete
+hierarchy, its components, and -- cross-check of `flag_denseM_spd_checked` -- the same exact positive-definiteness
+certificate applied to the model matrices `denseM` of the V- and the W-cycle.
+Reply: `spd parts pdV pdW` (`pdV`/`pdW`: `true`/`false`/`-` when `denseM` fails), or `unmodelled`.
+
+`ext_c05z_blk r <bs> <n ap aj ax>`: the proved Boolean `C05ZB.blkSmCheck` (`A.toBsr bs`, `blockDinv` succeed,
+`Dinv_i B_ii = I`, symmetric inverse blocks) and its components. -/
 namespace PyamgV.Drv.ExtE47
+open PyamgV PyamgV.Drv PyamgV.C05 PyamgV.K PyamgV.C05Z
 
-/-- line-protocol ops of extension E47 (filled in by the extension) -/
+def showParts (l : List Bool) : String :=
+  if l.isEmpty then "-" else String.intercalate "," (l.map (fun b => if b then "1" else "0"))
+
+def runSpd (pre post : String) (rest : List String) : String :=
+  let pre := PyamgV.Drv.C05.parseCfgs pre
+  let post := PyamgV.Drv.C05.parseCfgs post
+  match PyamgV.Drv.C05.parseLevels parseRats pre post 0 rest with
+  | none => "unmodelled"
+  | some (ls, ac) =>
+    let pdOf (c : Cyc) : String := match denseM (α := Rat) id ac c ls with
+      | some M => toString (PyamgV.C05Z.pdB posR M.size M)
+      | none => "-"
+    s!"{PyamgV.C05Z.c05SpdCheck posR id ac ls} {showParts (PyamgV.C05Z.c05SpdParts posR id ac ls)} {pdOf .V} {pdOf .W}"
+
 def handle : List String → Option String
+  | "ext_c05z_spd" :: "r" :: pre :: post :: rest => some <| runSpd pre post rest
   | _ => none
 
 end PyamgV.Drv.ExtE47
